@@ -141,6 +141,21 @@ func c27TopicOfID(id [16]byte) int {
 }
 func c27Mark(t, p, k int) int64 { return int64(1000000*(k+1) + 1000*t + p) }
 
+// c27Records is the record set the scripted backends put into a fetch reply entry for (topic, partition, k-th receipt):
+// a reply entry that carries another partition's (or topic's) records is visible to the client side check below.
+func c27Records(t, p, k int) []byte { return []byte(fmt.Sprintf("records-of-%d:%d#%d", t, p, k)) }
+
+// c27CheckRecords notes an anomaly when a successful fetch reply entry does not carry the records of its own partition.
+func c27CheckRecords(tn int, part int32, code int16, mark int64, recs []byte) {
+	if code != 0 || mark < 1000000 {
+		return
+	}
+	k := int(mark/1000000) - 1
+	if want := c27Records(tn, int(part), k); string(recs) != string(want) {
+		c27.note(fmt.Sprintf("records of %d:%d are %q", tn, part, recs))
+	}
+}
+
 func c27Serve(idx int, ln net.Listener) {
 	for {
 		conn, err := ln.Accept()
@@ -273,6 +288,7 @@ func c27Conn(idx int, conn net.Conn) {
 					rp.Partition = int32(e.p)
 					rp.ErrorCode = e.code
 					rp.HighWatermark = e.mark
+					rp.RecordBatches = c27Records(t, e.p, k)
 					rt.Partitions = append(rt.Partitions, rp)
 				}
 				fr.Topics = append(fr.Topics, rt)
@@ -456,6 +472,7 @@ func c27Send(ctx context.Context, p *proxy, pool *connPool, kind string, v int16
 				tn = c27TopicOfID(t.TopicID)
 			}
 			for _, pr := range t.Partitions {
+				c27CheckRecords(tn, pr.Partition, pr.ErrorCode, pr.HighWatermark, pr.RecordBatches)
 				es = append(es, fmt.Sprintf("%d:%d=%d/%d", tn, pr.Partition, pr.ErrorCode, pr.HighWatermark))
 			}
 		}
@@ -744,17 +761,17 @@ func c27Main() {
 					if f[0] == "A" {
 						reply = "none"
 					} else {
-					resp, err := parseProduceResponse(respBytes, v)
-					if err != nil {
-						return "undecodable"
-					}
-					var es []string
-					for _, t := range resp.Topics {
-						for _, pr := range t.Partitions {
-							es = append(es, fmt.Sprintf("%d:%d=%d/%d", c27TopicOfName(t.Topic), pr.Partition, pr.ErrorCode, pr.BaseOffset))
+						resp, err := parseProduceResponse(respBytes, v)
+						if err != nil {
+							return "undecodable"
 						}
-					}
-					reply = strings.Join(es, ",")
+						var es []string
+						for _, t := range resp.Topics {
+							for _, pr := range t.Partitions {
+								es = append(es, fmt.Sprintf("%d:%d=%d/%d", c27TopicOfName(t.Topic), pr.Partition, pr.ErrorCode, pr.BaseOffset))
+							}
+						}
+						reply = strings.Join(es, ",")
 					}
 				} else {
 					req := kmsg.NewPtrFetchRequest()
@@ -795,6 +812,7 @@ func c27Main() {
 							tn = c27TopicOfID(t.TopicID)
 						}
 						for _, pr := range t.Partitions {
+							c27CheckRecords(tn, pr.Partition, pr.ErrorCode, pr.HighWatermark, pr.RecordBatches)
 							es = append(es, fmt.Sprintf("%d:%d=%d/%d", tn, pr.Partition, pr.ErrorCode, pr.HighWatermark))
 						}
 					}
